@@ -2000,10 +2000,78 @@ def validate_numpy(ctx):
 
 
 # ----------------------------------------------------------------------------------------------- entry points
+def stream_program(ctx, scratch):
+    """the command-line program with `-o` and every combination of the size flags: the output file holds what the
+    requested size says — per-contribution dictionaries are stored (at size-3) whenever the model has contributions,
+    optical depths are present exactly when the size asks for them; `--lighter` wins over `--light` in either order"""
+    import sys as _sys
+    import io
+    import contextlib
+    import h5py
+    import taurex.taurex as T
+    from harness import c15 as K15
+    rng = ctx.rng
+    K15.quiet()
+    opac = K15.make_opacities(scratch.dir, rng)
+    combos = [[], ['--light'], ['--lighter'], ['--light', '--lighter'], ['--lighter', '--light']]
+    for it in range(ctx.n(2, 10)):
+        case15 = K15.gen_cli_case(rng, opac)
+        par = os.path.join(scratch.dir, 'prog.par')
+        # a manual binning section, so that binned optical depths exist and light / lighter can be told apart
+        pfile = list(case15['file']) + [('Binning', dict(scalars=[('bin_type', 'manual'),
+                                                                 ('wavenumber_grid', ['600.0', '5500.0', '12'])], subs=[]))]
+        K15.write_file(par, pfile)
+        for flags in combos:
+            size = 1 if '--lighter' in flags else (3 if '--light' in flags else 6)
+            out = os.path.join(scratch.dir, 'prog_out.h5')
+            if os.path.exists(out):
+                os.remove(out)
+            case = dict(stream='program', flags=flags, file=case15['file'])
+            K15.clear_caches()
+            argv = _sys.argv
+            _sys.argv = ['taurex', '-i', par, '-o', out] + flags
+            try:
+                with contextlib.redirect_stdout(io.StringIO()):
+                    T.main()
+            except BaseException as e:  # noqa
+                if isinstance(e, KeyboardInterrupt):
+                    raise
+                ctx.violation('program-raises', 'taurex -i f -o out %s raised %r' % (' '.join(flags), e), case)
+                continue
+            finally:
+                _sys.argv = argv
+            with h5py.File(out, 'r') as f:
+                sp = f['Output/Spectra']
+                keys = set(sp.keys())
+                contribs = {}
+                if 'Contributions' in sp:
+                    for cn in sp['Contributions']:
+                        contribs[cn] = set(sp['Contributions'][cn].keys())
+                ncontrib_sections = sum(1 for n_, sec in case15['file'] if n_ == 'Model' for _ in sec['subs'])
+            ctx.case(key=('program', tuple(flags)), bucket='program:size=%d' % size, sample=dict(flags=flags, keys=sorted(keys)[:6]))
+            ctx.disagreements_checked += 2
+            if ('binned_tau' in keys) != (size > 1):
+                ctx.violation('program-binned-tau-presence', 'taurex %s: binned_tau present=%s in Output/Spectra although the '
+                              'requested size is %d' % (' '.join(flags), 'binned_tau' in keys, size), case)
+            if ('native_tau' in keys) != (size > 3):
+                ctx.violation('program-native-tau-presence', 'taurex %s: native_tau present=%s in Output/Spectra although the '
+                              'requested size is %d' % (' '.join(flags), 'native_tau' in keys, size), case)
+            if ncontrib_sections and not contribs:
+                ctx.violation('program-contributions-missing', 'taurex %s: the model has contributions but Output/Spectra/'
+                              'Contributions was not written' % ' '.join(flags), case)
+            for cn, ck in contribs.items():
+                if ('native_tau' in ck) != (size - 3 > 3):
+                    ctx.violation('program-contribution-tau-presence', 'taurex %s: contribution %s native_tau present=%s '
+                                  'although contributions are stored at size %d' % (' '.join(flags), cn, 'native_tau' in ck,
+                                                                                 size - 3), case)
+    K15.clear_caches()
+
+
 def run(ctx):
     scratch = Scratch()
     try:
         validate_numpy(ctx)
+        stream_program(ctx, scratch)
         stream_dict(ctx, scratch)
         stream_group(ctx, scratch)
         stream_component(ctx, scratch)
